@@ -1,6 +1,8 @@
 package hx
 
 import (
+	ipld "github.com/ipld/go-ipld-prime"
+	cidlink "github.com/ipld/go-ipld-prime/linking/cid"
 	"os"
 
 	"github.com/ipfs/go-cid"
@@ -28,3 +30,5 @@ func tier() string {
 }
 
 type cidT = cid.Cid
+
+func cidLinkSystem() ipld.LinkSystem { return cidlink.DefaultLinkSystem() }
